@@ -1080,6 +1080,58 @@ Section Reader.
   Proof.
     intros H. exists (map Lit w). split; [apply simple_word_reads | apply read_multi_lits]; assumption.
   Qed.
+
+  (* ---- operands of a declaration utility ------------------------------------ *)
+
+  Definition decl_word (t f : str) : Prop :=
+    exists U, word_reads t U /\ read_decl U = OField f.
+
+  Lemma decl_words_units : forall ts fs, Forall2 decl_word ts fs ->
+    exists Us, Forall2 word_reads ts Us /\ map read_decl Us = map OField fs.
+  Proof.
+    induction 1 as [|t f ts fs [U [HU HR]] _ [Us [IH1 IH2]]].
+    - exists []. split; constructor.
+    - exists (U :: Us). split; [constructor; assumption|]. cbn [map]. rewrite HR, IH2. reflexivity.
+  Qed.
+
+  Lemma run_line_decls d ts fs rest :
+    decl_cmd d = true -> Forall2 decl_word ts fs -> rest_ok rest ->
+    run_line lws (d ++ spaced ts ++ rest)
+    = COk (mkSimple [] (OField d :: map OField fs)) rest.
+  Proof.
+    intros Hc Hq Hr. destruct (decl_cmd_facts d Hc) as (Hw & Hk & Hd).
+    destruct (decl_words_units ts fs Hq) as [Us [HU HM]].
+    unfold run_line.
+    rewrite (read_words_command d (map Lit d) ts Us rest (simple_word_reads d Hw) HU Hr).
+    unfold build_simple. rewrite Hk. cbn [take_assigns].
+    rewrite as_assign_lits_none by assumption. rewrite Hd.
+    rewrite read_multi_lits, HM by assumption. reflexivity.
+  Qed.
+
+  Lemma assign_decl_word name q s :
+    simple_word name = true -> reads_as q s ->
+    decl_word (name ++ c_eq :: q) (name ++ c_eq :: s).
+  Proof.
+    intros Hn Hq. exists (map Lit name ++ Lit c_eq :: units_of q s).
+    split; [apply assign_word_reads | apply read_decl_word]; assumption.
+  Qed.
+
+  (* a word without an unquoted [=] is read like any other operand *)
+  Lemma plain_decl_word q s :
+    reads_as q s -> split_eq (units_of q s) = None -> decl_word q s.
+  Proof.
+    intros Hq He. exists (units_of q s). split; [apply spec_word_reads; assumption|].
+    destruct (units_facts q s Hq) as [H1 H2 H3 H4 H5 H6 H7].
+    unfold read_decl, as_assign, tilde_front. rewrite H2, He.
+    unfold read_multi, tilde_front. rewrite H2, H4, H1. reflexivity.
+  Qed.
+
+  Lemma no_lit_split_eq us : no_lit us -> split_eq us = None.
+  Proof.
+    induction us as [|u us IH]; [reflexivity|]. intros H.
+    cbn [split_eq]. rewrite (no_lit_is_lit _ c_eq u H (or_introl eq_refl)).
+    rewrite IH by (eapply no_lit_tail; eassumption). reflexivity.
+  Qed.
 End Reader.
 
 (* ===================================================================== *)
@@ -1158,6 +1210,52 @@ Section Main.
     apply run_line_multi; try assumption.
     induction Hst as [|p st Hp _ IH]; constructor; [|exact IH].
     apply quote_pair_multi; assumption.
+  Qed.
+
+  Lemma bare_no_eq s : str_needs_quoting qws s = false -> mem c_eq s = false.
+  Proof.
+    destruct s as [|c t]; [discriminate|]. unfold str_needs_quoting.
+    rewrite !orb_false_iff. intros [[[[[_ _] H3] _] _] _].
+    apply mem_false_iff. intros Hin.
+    assert (E : existsb (char_needs_quoting qws) (c :: t) = true).
+    { apply existsb_exists. exists c_eq. split; [assumption | reflexivity]. }
+    congruence.
+  Qed.
+
+  Lemma quote_decl_word s : decl_word lws (quote qws s) s.
+  Proof.
+    apply plain_decl_word; [assumption | apply quote_reads_as|].
+    unfold quote, quote_shape. destruct (str_needs_quoting qws s) eqn:Hn; cbn [negb].
+    - destruct (negb (mem c_sq s)); cbn [render units_of]; rewrite N.eqb_refl;
+        [|change (N.eqb c_dq c_sq) with false; cbn [orb]];
+        apply no_lit_split_eq; apply no_lit_quos.
+    - cbn [render]. destruct s as [|c t]; [discriminate|]. unfold units_of.
+      pose proof (quote_reads_as (c :: t)) as Hq. unfold quote, quote_shape in Hq.
+      rewrite Hn in Hq. cbn [negb render] in Hq.
+      pose proof (bare_inert qws lws Hsub (c :: t) Hn) as Hi.
+      pose proof (inert_plain lws _ Hi) as Hp. cbn [forallb] in Hp. apply andb_true_iff in Hp.
+      destruct Hp as [Hc _]. destruct (plain_char_facts lws c Hc) as (_ & H1 & H2 & _).
+      rewrite H1, H2. cbn [orb]. apply split_eq_lits_none. apply bare_no_eq; assumption.
+  Qed.
+
+  Lemma operand_decl_word o :
+    operand_ok o = true -> decl_word lws (operand_text qws o) (operand_field o).
+  Proof.
+    destruct o as [s | n v]; cbn [operand_ok operand_text operand_field]; intros H.
+    - apply quote_decl_word.
+    - apply assign_decl_word; [assumption | assumption | apply quote_reads_as].
+  Qed.
+
+  Lemma decl_line_lemma d os rest :
+    decl_cmd d = true -> rest_ok rest -> forallb operand_ok os = true ->
+    run_line lws (d ++ spaced (map (operand_text qws) os) ++ rest)
+    = COk (mkSimple [] (OField d :: map (fun o => OField (operand_field o)) os)) rest.
+  Proof.
+    intros Hd Hr Hos. rewrite <- (map_map operand_field OField).
+    apply run_line_decls; try assumption.
+    induction os as [|o os IH]; [constructor|].
+    cbn [forallb] in Hos. apply andb_true_iff in Hos. destruct Hos as [Ho Hos].
+    constructor; [apply operand_decl_word; assumption | apply IH; assumption].
   Qed.
 
   Lemma quote_injective_lemma s1 s2 : quote qws s1 = quote qws s2 -> s1 = s2.
